@@ -135,7 +135,7 @@ def d1Lo (W : Mat) (lam : Vec) : Option Rat :=
 /-- tolerance on `‖u*‖ = 1` and on cone membership `W u* ≥ 0` -/
 def tolUnit : Rat := 1 / 1000000000
 /-- tolerance on the feasibility `W (d₁ u*) ≥ 𝟙` of the implementation's point (SLSQP) -/
-def tolFeas : Rat := 1 / 10000000
+def tolFeas : Rat := 1 / 1000000
 
 /-- `| ‖u‖ − 1 | ≤ tolUnit`, by squaring -/
 def unitNormOk (u : Vec) : Bool :=
